@@ -439,6 +439,9 @@ func init() {
 			// the only malformation is an over-nested item in a later root, after a root deep enough to offer a stale parent
 			{"jump-second", []string{"- a\n  - b\n    - c\n", "- d\n      - e\n"}, nil, ""},
 			{"jump-third", []string{"- a\n  - b\n    - c\n      - d\n", "- e\n  - f\n", "- g\n        - h\n"}, nil, ""},
+			// something that is not a root in front of the first root (an item with no root above it, plain text)
+			{"orphan-before-first-root", []string{"- a\n  - b\n", "- c\n"}, nil, "  - x\n"},
+			{"text-before-first-root", []string{"- a\n", "- c\n  - d\n"}, nil, "\nzzz\n"},
 		}
 		special := []docT{
 			{"sharp-roots", []string{"# a\n- b\n", "# c\n- d\n"}, []int{2, 2}, ""},
